@@ -24,23 +24,50 @@ EMPTY_FACTS = {"types": [], "directives": [], "impl": {}, "fields": {}, "frags":
 import re
 
 SUBTYPE = re.compile(r"^interface field `(\w+)\.(\w+)` expects type `[^`]*` but `(\w+)\.(\w+)` of type `[^`]*` is not a proper subtype")
+ARGS = re.compile(r"^interface field `(\w+)\.(\w+)` expects argument `\w+` but `(\w+)\.(\w+)` does not provide it")
 REQUIRED = re.compile(r"^the required field `(\w+)\.(\w+)` is not provided")
+CYCLE = re.compile(r"^`(\w+)` input object cannot reference itself")
+
+
+def _blocks(text, keyword, name):
+    """(header, body) of every `extend <keyword> <name> ...` in the text"""
+    return [(m.group(1), m.group(2) or "") for m in re.finditer(r"^(extend %s %s\b[^\n{]*)(?:\{\n((?:.*\n)*?)\})?" % (keyword, name), text, flags=re.M)]
+
+
+def _parents(text, name):
+    out = set()
+    for m in re.finditer(r"^(?:extend )?(?:interface|type) %s implements ([^{@\n]*)" % name, text, flags=re.M):
+        out |= {x.strip() for x in m.group(1).split("&") if x.strip()}
+    return out
 
 
 def extension_after_use(r):
-    """Both families need an extension that adds a field to a type that was already used, and nothing else wrong."""
+    """All these need a type EXTENSION generated after the type was used, and nothing else wrong in the document:
+    an interface extension that adds a field (or a parent) to an interface some type already implements, an input
+    extension that adds a required field after a literal was written, or that closes a non-null cycle."""
     errs = r.get("errors") or []
     text = r.get("text") or ""
     if not errs:
         return None
-    if all(SUBTYPE.match(e) for e in errs):
-        # `extend interface I { f: .. }` generated after an implementer of I had declared f with another type
-        if all(re.search(r"extend interface %s\b" % SUBTYPE.match(e).group(1), text) for e in errs):
+    if all(SUBTYPE.match(e) or ARGS.match(e) for e in errs):
+        ok = True
+        for e in errs:
+            iface, field, impl, _ = (SUBTYPE.match(e) or ARGS.match(e)).groups()
+            involved = _parents(text, impl) | {iface}
+            # some interface the implementer answers to was extended with this field or with a new parent
+            if not any(re.search(r"^\s+%s\b" % field, body, flags=re.M) or "implements" in header
+                       for p in involved for header, body in _blocks(text, "interface", p)):
+                ok = False
+        if ok:
             return "interface-extension-field-after-implementer"
     if all(REQUIRED.match(e) for e in errs):
-        # `extend input T { f: X! }` generated after an object literal of type T had been written
-        if all(re.search(r"extend input %s\b" % REQUIRED.match(e).group(1), text) for e in errs):
+        if all(_blocks(text, "input", REQUIRED.match(e).group(1)) for e in errs):
             return "input-extension-required-field-after-literal"
+    if all(CYCLE.match(e) for e in errs):
+        names = [CYCLE.match(e).group(1) for e in errs]
+        # the cycle goes through a field added by an extension of one of the types on it
+        if any(re.search(r"^\s+\w+(\([^)]*\))?: (%s)!" % "|".join(names), body, flags=re.M) for n in names for _, body in _blocks(text, "input", n)):
+            return "input-extension-closes-non-null-cycle"
     return None
 
 
@@ -105,7 +132,7 @@ def run(chk):
                 continue
             seen.add(key)
             chk.violation({"class": f, "what": row["what"], "cause": cause, "schema": row.get("schema", -1)},
-                          {"bytes_hex": row.get("bytes"), "len": row.get("len"), "limits": row.get("limits"), "message": row.get("message"), "panic": row.get("panic"),
+                          {"reproduce": "vh smith-record --seed %s --count %d --ops %d --start %s (first line)" % (chk.seed, count, ops, row.get("item")), "bytes_hex_first_4000": row.get("bytes"), "len": row.get("len"), "limits": row.get("limits"), "message": row.get("message"), "panic": row.get("panic"),
                            "depth": row.get("depth"), "text": (row.get("text") or "")[:3000], "rc": row.get("rc")})
     docs = [r for r in rows if r["what"] == "document"]
     ops_rows = [r for r in rows if r["what"] == "operation"]
